@@ -1,5 +1,5 @@
 (* C01 - CTAP2 request decoding is faithful to the specification's parameter tables. *)
-From Ctap Require Import Base Schema Wire Utf8 Typed Procs Inst Tables ProcTables Finite CborItem WireP SkipP TypedP EntriesP FramingP C11P WellTyped SerP RoundTripP ObRequestSide ObOpTables ObEnvRt AgreeP ObRequestAgree FnShapes Shapes ObShapeRequest Deps ObDeps.
+From Ctap Require Import Base Schema Wire Utf8 Typed Procs Inst Tables ProcTables Finite CborItem WireP SkipP TypedP EntriesP FramingP C11P WellTyped SerP RoundTripP ObRequestSide ObOpTables ObEnvRt AgreeP ObRequestAgree FnShapes Shapes ObShapeRequest Deps ObDeps ObShapeStrings ObShapeFilters.
 Local Open Scope string_scope.
 Local Open Scope Z_scope.
 
@@ -132,6 +132,12 @@ Proof. exact generated_shapes_request. Qed.
 Theorem c01_modelled_dependencies_pinned : deps_hold lock_versions cargo_deps = true.
 Proof. exact generated_deps. Qed.
 
+(* further hand-modelled functions this property rests on *)
+Theorem c01_modelled_functions_unchanged_strings : shapes_hold fn_shapes shapes_strings = true.
+Proof. exact generated_shapes_strings. Qed.
+Theorem c01_modelled_functions_unchanged_filters : shapes_hold fn_shapes shapes_filters = true.
+Proof. exact generated_shapes_filters. Qed.
+
 Eval vm_compute in "ASSUMPTIONS c01_indexed_map_faithful". Print Assumptions c01_indexed_map_faithful.
 Eval vm_compute in "ASSUMPTIONS c01_text_map_faithful". Print Assumptions c01_text_map_faithful.
 Eval vm_compute in "ASSUMPTIONS c01_generated_conforms". Print Assumptions c01_generated_conforms.
@@ -145,3 +151,5 @@ Eval vm_compute in "ASSUMPTIONS c01_modelled_functions_unchanged_request". Print
 Eval vm_compute in "ASSUMPTIONS c01_generated_agreement". Print Assumptions c01_generated_agreement.
 Eval vm_compute in "ASSUMPTIONS c01_generated_model_is_spec_model". Print Assumptions c01_generated_model_is_spec_model.
 Eval vm_compute in "ASSUMPTIONS c01_modelled_dependencies_pinned". Print Assumptions c01_modelled_dependencies_pinned.
+Eval vm_compute in "ASSUMPTIONS c01_modelled_functions_unchanged_strings". Print Assumptions c01_modelled_functions_unchanged_strings.
+Eval vm_compute in "ASSUMPTIONS c01_modelled_functions_unchanged_filters". Print Assumptions c01_modelled_functions_unchanged_filters.
